@@ -260,7 +260,7 @@ Definition keys_from (seek : key) (l : layer) : list key := filter (N.leb seek) 
 Lemma new_iter_spec seek l prio : lsorted l ->
   new_iter seek l prio = Ok (mkW 0%N (keys_from seek l) l prio).
 Proof.
-  intros S. unfold new_iter.
+  intros S. unfold new_iter, new_iter_from.
   set (ks := key_list l).
   set (f := fun i => match nth_error ks i with Some k => Some (N.leb seek k) | None => None end).
   destruct (sort_search_spec (length ks) f) as (r & pr & E & Hr & H1 & H2 & _).
